@@ -135,6 +135,23 @@ GROUPS += [dict(JS, name="json_write_read", entry="h_json_write_read", unwind=20
                 bound="strings of one character, every scalar value (UTF-8 width 1..4 enumerated, the code point symbolic)",
                 assumptions=JS["assumptions"] + ["sexp_buffered_write_string appends to the port buffer (contract stub); snprintf is modelled for the two \\u%04lX formats only"],
                 instances=[{"name": "w%d" % w, "defs": {"W": w}} for w in (1, 2, 3, 4)])]
+def num_shapes():
+    out = []
+    for neg in (0, 1):
+        for frac in (0, 1):
+            for exp in (0, 1):
+                for up in ((0, 1) if exp else (0,)):
+                    for sg in ((0, 1, 2) if exp else (0,)):
+                        v = frac | (exp << 1) | (up << 2) | (sg << 3) | (neg << 5)
+                        out.append({"name": "%s%s%s" % ("neg_" if neg else "", "int" + (".frac" if frac else ""), ("%s%s" % ("E" if up else "e", ["", "+", "-"][sg])) if exp else ""), "defs": {"NUMSHAPE": v}})
+    return out
+
+
+GROUPS += [dict(JS, name="json_number", entry="h_json_number", label="bounded", unwind=12, functions=["lib/chibi/json.c:json_read_number"],
+                havoc_keep=["json_read_number", "verif_isdigit", "verif_isxdigit", "verif_isspace", "verif_tolower", "pow", "fabs", "sexp_make_flonum", "verif_register", "verif_registered", "verif_pointerp", "verif_fixnump", "verif_is_imm"],
+                bound="token shapes enumerated (sign, two integer digits, optional two-digit fraction, optional exponent with e/E, sign and two digits: 28 shapes); digits symbolic",
+                assumptions=JS["assumptions"] + ["pow returns an arbitrary double and sexp_make_flonum is a recording stub: the numeric value is not specified in this group, only that the token is consumed and the kind of the result"],
+                instances=num_shapes())]
 META = {
  "trusted_base": ["CBMC 6.11.0 front end, SAT back end, bit-precise IEEE-754 float model (round-to-nearest-even)"],
  "assumptions": ["quarter code 128 (-0.0) re-encodes as 0 (+0.0): numerically equal, excluded from the round-trip clause"],
